@@ -85,6 +85,15 @@ class SplitIter(Model):
     def __init__(self, s, sep):
         self.s, self.sep, self.pos, self.finished = as_symstr(s), sep, 0, False
 
+    def as_pyiter(self, ex):
+        def g():
+            while True:
+                o = split_next(ex, None, [self], None, None)
+                if o.variant == 0:
+                    return
+                yield o.fields[0]
+        return PyIter(g())
+
 
 @model(r'(?:core|std|alloc)::str::<impl str>::split::<char>')
 def str_split_char(ex, m, a, fr, dest):
@@ -2492,3 +2501,30 @@ def cow_into_owned(ex, m, a, fr, dest):
     if isinstance(c, Agg) and last_seg(c.ty) == 'Cow':
         return deref(c.fields[0])
     return c
+
+
+@model(r'<(?:std::boxed::)?Box<dyn .*> as Fn(?:Mut|Once)?<.*>>::call(?:_mut|_once)?|<&(?:std::boxed::)?Box<dyn .*> as Fn(?:Mut|Once)?<.*>>::call(?:_mut|_once)?')
+def boxed_fn_call(ex, m, a, fr, dest):
+    f = deref(a[0])
+    if isinstance(f, Agg) and last_seg(f.ty) == 'Box':
+        f = deref(f.fields[0])
+    args = a[1].fields if isinstance(a[1], Agg) else []
+    if callable(f):
+        return f(*args)
+    return ex.call_closure(f, list(args))
+
+
+@model(r'(?:std::result::)?Result::<.*>::is_ok_and::<.*>')
+def res_is_ok_and(ex, m, a, fr, dest):
+    o = a[0]
+    if o.variant != 0:
+        return False
+    return ex.call_closure(a[1], [o.fields[0]])
+
+
+@model(r'(?:std::result::)?Result::<.*>::is_err_and::<.*>')
+def res_is_err_and(ex, m, a, fr, dest):
+    o = a[0]
+    if o.variant != 1:
+        return False
+    return ex.call_closure(a[1], [o.fields[0]])
